@@ -202,66 +202,113 @@ _PH = ["BETA", "BETA_2", "GAMMA"]
 _EL = ["CR", "AL", "TI"]
 
 
-def roundtrip_kwn(ctx, nph=2, nel=1, N=2, bins=(2, 3), io="file", psdrec=False):
+def _fill_kwn(ctx, m, N, bins, tag=""):
+    """put a solved-at-least-once state into the model (symbolic contents); returns what has to come back"""
+    nph, nel = len(m.phases), len(m.elements)
+    d = PrecipitationData(m.phases, m.elements, N)
+    shapes = _history_shapes(N, nph, nel)
+    for name, shp in shapes.items():
+        setattr(d, name, ctx.reals(tag + name, shp, (0.0, 2.0)))
+    d.n = N - 1
+    m.pData = d
+    snap = {"N": N, "hist": {name: getattr(d, name) for name in shapes}, "pbm": []}
+    for p in range(nph):
+        b = bins[p]
+        pbm = PBM(1e-10, 1e-9, b)
+        lo = ctx.real(tag + "min%d" % p, (0.05, 0.1)); hi = ctx.real(tag + "max%d" % p, (1.0, 2.0))
+        ctx.assume(hi >= 10 * lo, "PopulationBalanceModel keeps max >= 10*min (constructor and changeSizeClasses)")
+        pbm.min, pbm.max, pbm.bins = lo, hi, b
+        pbm.PSD = ctx.reals(tag + "PSD%d" % p, b, (0.0, 5.0))
+        pbm.PSDbounds = ctx.reals(tag + "PSDbounds%d" % p, b + 1, (0.1, 2.0))
+        pbm.PSDsize = ctx.reals(tag + "PSDsize%d" % p, b, (0.1, 2.0))
+        m.PBM[p] = pbm
+        m.eqAspectRatio[p] = ctx.reals(tag + "eqAR%d" % p, b + 1, (1.0, 3.0))
+        snap["pbm"].append({"min": lo, "max": hi, "bins": b, "PSD": pbm.PSD, "PSDbounds": pbm.PSDbounds, "PSDsize": pbm.PSDsize,
+                            "eqAR": m.eqAspectRatio[p]})
+    return snap
+
+
+def _check_kwn(ctx, m2, snap, tag=""):
+    nph = len(snap["pbm"])
+    for name, want in snap["hist"].items():
+        got = getattr(m2.pData, name)
+        obs(ctx, tag + name, got)
+        ctx.prove(tag + "history array restored: " + name, same_arr(ctx, got, want))
+    ctx.prove(tag + "step counter restored", int(m2.pData.n) == snap["N"] - 1)
+    ctx.prove(tag + "one size distribution per phase", len(m2.PBM) == nph and len(m2.eqAspectRatio) == nph)
+    for p in range(nph):
+        w, b = snap["pbm"][p], m2.PBM[p]
+        obs(ctx, tag + "PSD%d" % p, b.PSD)
+        ctx.prove(tag + "PSD restored", same_arr(ctx, b.PSD, w["PSD"]))
+        ctx.prove(tag + "PSDbounds restored", same_arr(ctx, b.PSDbounds, w["PSDbounds"]))
+        ctx.prove(tag + "PSDsize restored", same_arr(ctx, b.PSDsize, w["PSDsize"]))
+        ctx.prove(tag + "grid min/max/bins restored", ctx.all([same(ctx, b.min, w["min"]), same(ctx, b.max, w["max"]), int(b.bins) == w["bins"]]))
+        ctx.prove(tag + "eqAspectRatio restored", same_arr(ctx, m2.eqAspectRatio[p], w["eqAR"]))
+
+
+def _fname(io, base, fname):
+    return fname if fname is not None else (base if io == "file" else base + ".npz")
+
+
+def roundtrip_kwn(ctx, nph=2, nel=1, N=2, bins=(2, 3), io="file", psdrec=False, fname=None, two=None):
     """PrecipitateModel.save -> fresh PrecipitateModel.load restores every history array, n, and per phase PSD,
-    PSDbounds, PSDsize, min/max/bins and eqAspectRatio"""
+    PSDbounds, PSDsize, min/max/bins and eqAspectRatio -- whatever the file name (with or without .npz, dots inside);
+    two saves of one run under two names (mid-run, later) each give back the state they were made from"""
     phases, elements = _PH[:nph], _EL[:nel]
     m = PrecipitateModel(phases=list(phases), elements=list(elements))
     if psdrec:
         m.setPSDrecording(True)
-    d = PrecipitationData(m.phases, m.elements, N)
-    shapes = _history_shapes(N, nph, nel)
-    for name, shp in shapes.items():
-        setattr(d, name, ctx.reals(name, shp, (0.0, 2.0)))
-    d.n = N - 1
-    m.pData = d
-    grids = []
-    for p in range(nph):
-        b = bins[p]
-        pbm = m.PBM[p]
-        lo = ctx.real("min%d" % p, (0.05, 0.1)); hi = ctx.real("max%d" % p, (1.0, 2.0))
-        ctx.assume(hi >= 10 * lo, "PopulationBalanceModel keeps max >= 10*min (constructor and changeSizeClasses)")
-        pbm.min, pbm.max, pbm.bins = lo, hi, b
-        pbm.PSD = ctx.reals("PSD%d" % p, b, (0.0, 5.0))
-        pbm.PSDbounds = ctx.reals("PSDbounds%d" % p, b + 1, (0.1, 2.0))
-        pbm.PSDsize = ctx.reals("PSDsize%d" % p, b, (0.1, 2.0))
-        m.eqAspectRatio[p] = ctx.reals("eqAR%d" % p, b + 1, (1.0, 3.0))
-        grids.append((lo, hi, b))
-    m2 = PrecipitateModel(phases=list(phases), elements=list(elements))
+    snap = _fill_kwn(ctx, m, N, bins)
+    fresh = lambda: PrecipitateModel(phases=list(phases), elements=list(elements))
+    if two is not None:
+        with file_layer(ctx, [_mod_generic]) as path_of:
+            m.save(path_of(two[0]))
+            snap2 = _fill_kwn(ctx, m, N + 1, bins[::-1], tag="later_")           # the run went on
+            m.save(path_of(two[1]))
+            m1, m2 = fresh(), fresh()
+            m1.load(path_of(two[0])); m2.load(path_of(two[1]))
+        _check_kwn(ctx, m1, snap, tag="first save: ")
+        _check_kwn(ctx, m2, snap2, tag="second save: ")
+        return
+    m2 = fresh()
     if io == "dict":
         m2.fromDict(m.toDict())
     else:
         with file_layer(ctx, [_mod_generic]) as path_of:
-            fn = path_of("prec") if io == "file" else path_of("prec.npz")
+            fn = path_of(_fname(io, "prec", fname))
             m.save(fn)
             m2.load(fn)
-    for name in shapes:
-        got = getattr(m2.pData, name)
-        obs(ctx, name, got)
-        ctx.prove("history array restored: " + name, same_arr(ctx, got, getattr(d, name)))
-    ctx.prove("step counter restored", int(m2.pData.n) == N - 1)
-    ctx.prove("one size distribution per phase", len(m2.PBM) == nph and len(m2.eqAspectRatio) == nph)
-    for p in range(nph):
-        a, b = m.PBM[p], m2.PBM[p]
-        obs(ctx, "PSD%d" % p, b.PSD)
-        ctx.prove("PSD restored", same_arr(ctx, b.PSD, a.PSD))
-        ctx.prove("PSDbounds restored", same_arr(ctx, b.PSDbounds, a.PSDbounds))
-        ctx.prove("PSDsize restored", same_arr(ctx, b.PSDsize, a.PSDsize))
-        ctx.prove("grid min/max/bins restored", ctx.all([same(ctx, b.min, grids[p][0]), same(ctx, b.max, grids[p][1]), int(b.bins) == grids[p][2]]))
-        ctx.prove("eqAspectRatio restored", same_arr(ctx, m2.eqAspectRatio[p], m.eqAspectRatio[p]))
+    _check_kwn(ctx, m2, snap)
 
 
-def roundtrip_diff(ctx, nel=2, N=3, R=2, record=True, io="file", disable=False, post=False, fresh_record=None):
+def _fill_diff(ctx, m, nel, N, R, record, tag=""):
+    m.t = ctx.real(tag + "t", (0.0, 100.0))
+    m.x = ctx.reals(tag + "x", (nel, N), (0.0, 1.0))
+    if record:
+        m._recordedX = ctx.reals(tag + "recX", (R, nel, N), (0.0, 1.0))
+        m._recordedTime = ctx.reals(tag + "recT", R, (0.0, 100.0))
+    return {"t": m.t, "x": m.x, "recX": m._recordedX, "recT": m._recordedTime}
+
+
+def _check_diff(ctx, m2, snap, tag=""):
+    obs(ctx, tag + "t", sc(m2.t)); obs(ctx, tag + "x", m2.x); obs(ctx, tag + "recT", m2._recordedTime)
+    ctx.prove(tag + "current time restored", same(ctx, m2.t, snap["t"]))
+    ctx.prove(tag + "current profile restored", same_arr(ctx, m2.x, snap["x"]))
+    ctx.prove(tag + "recorded profiles restored", same_arr(ctx, m2._recordedX, snap["recX"]))
+    ctx.prove(tag + "recorded times restored", same_arr(ctx, m2._recordedTime, snap["recT"]))
+    if snap["recX"] is not None:
+        ctx.prove(tag + "every recorded row present after loading", m2._recordedX is not None and m2._recordedTime is not None
+                  and len(m2._recordedX) == len(snap["recX"]) and len(m2._recordedTime) == len(snap["recT"]))
+
+
+def roundtrip_diff(ctx, nel=2, N=3, R=2, record=True, io="file", disable=False, post=False, fresh_record=None, fname=None, two=None):
     """DiffusionModel.save -> fresh DiffusionModel.load restores t, x and the recorded profiles/times -- also when
     recording was switched off (disableRecording keeps the history recorded so far) before saving, optionally with one
-    more unrecorded step in between, and whether or not the fresh model records"""
+    more unrecorded step in between, whether or not the fresh model records, whatever the file name (with or without
+    .npz, dots inside); two saves of one run under two names each give back the state they were made from"""
     els = ["NI"] + _EL[:nel]
     m = DiffusionModel([0.0, 1.0], N, list(els), ["FCC_A1"], record=record)
-    m.t = ctx.real("t", (0.0, 100.0))
-    m.x = ctx.reals("x", (nel, N), (0.0, 1.0))
-    if record:
-        m._recordedX = ctx.reals("recX", (R, nel, N), (0.0, 1.0))
-        m._recordedTime = ctx.reals("recT", R, (0.0, 100.0))
+    _fill_diff(ctx, m, nel, N, R, record)
     hist = (m._recordedX, m._recordedTime)
     if disable:
         m.disableRecording()
@@ -273,22 +320,27 @@ def roundtrip_diff(ctx, nel=2, N=3, R=2, record=True, io="file", disable=False, 
         if disable:
             ctx.prove("an unrecorded step leaves the recorded history alone",
                       ctx.all([same_arr(ctx, m._recordedX, hist[0]), same_arr(ctx, m._recordedTime, hist[1])]))
-    m2 = DiffusionModel([0.0, 1.0], N, list(els), ["FCC_A1"], record=record if fresh_record is None else fresh_record)
+    snap = {"t": m.t, "x": m.x, "recX": m._recordedX, "recT": m._recordedTime}
+    fresh = lambda: DiffusionModel([0.0, 1.0], N, list(els), ["FCC_A1"], record=record if fresh_record is None else fresh_record)
+    if two is not None:
+        with file_layer(ctx, [_mod_generic]) as path_of:
+            m.save(path_of(two[0]))
+            snap2 = _fill_diff(ctx, m, nel, N, R + 1, record, tag="later_")     # the run went on
+            m.save(path_of(two[1]))
+            m1, m2 = fresh(), fresh()
+            m1.load(path_of(two[0])); m2.load(path_of(two[1]))
+        _check_diff(ctx, m1, snap, tag="first save: ")
+        _check_diff(ctx, m2, snap2, tag="second save: ")
+        return
+    m2 = fresh()
     if io == "dict":
         m2.fromDict(m.toDict())
     else:
         with file_layer(ctx, [_mod_generic]) as path_of:
-            fn = path_of("diff") if io == "file" else path_of("diff.npz")
+            fn = path_of(_fname(io, "diff", fname))
             m.save(fn)
             m2.load(fn)
-    obs(ctx, "t", sc(m2.t)); obs(ctx, "x", m2.x); obs(ctx, "recT", m2._recordedTime)
-    ctx.prove("current time restored", same(ctx, m2.t, m.t))
-    ctx.prove("current profile restored", same_arr(ctx, m2.x, m.x))
-    ctx.prove("recorded profiles restored", same_arr(ctx, m2._recordedX, m._recordedX))
-    ctx.prove("recorded times restored", same_arr(ctx, m2._recordedTime, m._recordedTime))
-    if record:
-        ctx.prove("every recorded row present after loading", m2._recordedX is not None and m2._recordedTime is not None
-                  and len(m2._recordedX) == len(m._recordedX) >= R and len(m2._recordedTime) == len(m._recordedTime) >= R)
+    _check_diff(ctx, m2, snap)
 
 
 def roundtrip_strength(ctx, nph=2, N=2, compressed=True):
@@ -563,6 +615,72 @@ def mk_kernel(ctx):
     return TableKernel
 
 
+def _rows(v, N):
+    return oarr(v).reshape(N, -1) if N else oarr(v).reshape(0, 0)
+
+
+def check_stored(ctx, surr, therm, tag=""):
+    """every stored training array (x, T / T, gExtra and the outputs) is, row by row, what the thermodynamics object
+    returns for the stored state point -- fitting, querying and (de)serialising must not alter the stored data"""
+    name = tag + "stored training data are what the thermodynamics object returned: "
+    for ph, d in surr.drivingForceData.items():
+        T = [sc(t) for t in _np.ravel(oarr(d["T"]))]; N = len(T)
+        x, dg, xp = _rows(d["x"], N), _rows(d["dg"], N), _rows(d["xp"], N)
+        for r in range(N):
+            w = therm.getDrivingForce(np.array([[sc(q) for q in x[r]]]), T[r], precPhase=ph)
+            ctx.prove(name + "drivingForce", ctx.all([same(ctx, a, b) for a, b in zip(list(dg[r]) + list(xp[r]), flat(w))] + [len(flat(w)) == dg.shape[1] + xp.shape[1]]))
+    for ph, d in surr.diffusivityData.items():
+        T = [sc(t) for t in _np.ravel(oarr(d["T"]))]; N = len(T)
+        x, dn, dt = _rows(d["x"], N), _rows(d["dnkj"], N), _rows(d["dtracer"], N)
+        for r in range(N):
+            xr = np.array([[sc(q) for q in x[r]]])
+            w = flat(therm.getInterdiffusivity(xr, T[r], phase=ph)) + flat(therm.getTracerDiffusivity(xr, T[r], phase=ph))
+            ctx.prove(name + "diffusivity", ctx.all([same(ctx, a, b) for a, b in zip(list(dn[r]) + list(dt[r]), w)] + [len(w) == dn.shape[1] + dt.shape[1]]))
+    for ph, d in getattr(surr, "interfacialCompositionData", {}).items():
+        T = [sc(t) for t in _np.ravel(oarr(d["T"]))]; g = [sc(t) for t in _np.ravel(oarr(d["gExtra"]))]
+        xa = [sc(t) for t in _np.ravel(oarr(d["xpalpha"]))]; xb = [sc(t) for t in _np.ravel(oarr(d["xpbeta"]))]
+        ctx.prove(name + "interfacialComposition (lengths)", len(T) == len(g) == len(xa) == len(xb))
+        for r in range(min(len(T), len(g), len(xa), len(xb))):
+            wa, wb = therm.getInterfacialComposition(T[r], g[r], precPhase=ph)
+            ctx.prove(name + "interfacialComposition", ctx.all([same(ctx, xa[r], wa), same(ctx, xb[r], wb)]))
+    for ph, d in getattr(surr, "curvatureData", {}).items():
+        T = [sc(t) for t in _np.ravel(oarr(d["T"]))]; N = len(T)
+        for r in range(N):
+            w = therm.curvatureFactor(_np.ravel(oarr(d["x"][r])), T[r], precPhase=ph)
+            got = (d["dc"][r], d["mc"][r], d["gba"][r], d["beta"][r], d["xEqAlpha"][r], d["xEqBeta"][r])
+            ctx.prove(name + "curvature", ctx.all([same(ctx, a, b) for a, b in zip(flat(got), flat(tuple(w)))] + [len(flat(got)) == len(flat(tuple(w)))]))
+
+
+_DATA_DICTS = ("drivingForceData", "diffusivityData", "interfacialCompositionData", "curvatureData")
+
+
+def snapshot_data(surr):
+    """deep copy (lists of scalars) of every stored training-data dict"""
+    out = {}
+    for dn in _DATA_DICTS:
+        for ph, d in getattr(surr, dn, {}).items():
+            out[(dn, ph)] = {k: (list(flat(_lst(v))) if isinstance(v, (list, tuple, _np.ndarray)) else v) for k, v in d.items()}
+    return out
+
+
+def same_data(ctx, a, b):
+    if sorted(a.keys()) != sorted(b.keys()):
+        return False
+    conds = []
+    for key in a:
+        if sorted(a[key].keys()) != sorted(b[key].keys()):
+            return False
+        for k, v in a[key].items():
+            w = b[key][k]
+            if isinstance(v, list) or isinstance(w, list):
+                if not (isinstance(v, list) and isinstance(w, list)) or len(v) != len(w):
+                    return False
+                conds += [same(ctx, p, q) for p, q in zip(v, w)]
+            elif v != w:
+                return False
+    return ctx.all(conds)
+
+
 def _grid(nx, nT, broadcast):
     return [(i, j) for j in range(nT) for i in range(nx)] if broadcast else [(i, i) for i in range(nx)]
 
@@ -600,11 +718,14 @@ def trained_df(ctx, ne=2, nx=2, nT=1, logX=False, broadcast=True, form="scalar",
         want = therm.getDrivingForce(xw, Tw, precPhase=ph)
         obs(ctx, "dg" + "".join("%d%d" % p for p in pts), got)
         ctx.prove("trained driving force reproduces the training data", same_struct(ctx, got, want))
+    check_stored(ctx, surr, therm)
 
 
 def _lst(v):
     """python list (of lists) of scalars"""
     v = oarr(v)
+    if v.ndim == 0:
+        return [v[()]]
     return [_lst(r) for r in v] if v.ndim > 1 else [sc(e) for e in v]
 
 
@@ -640,6 +761,7 @@ def trained_diff(ctx, ne=2, nx=2, nT=2, logX=False, broadcast=True, form="2d", w
     xs, Ts, xarg, Targ = _state_points(ctx, ne, nx, nT, logX)
     surr.trainDiffusivity(xarg, Targ, logX=logX, broadcast=broadcast)
     ctx.prove("model registered for the matrix phase", list(surr.diffusivityModels.keys()) == [_PHASES[0]])
+    check_stored(ctx, surr, therm)          # fitting must leave the stored data alone (posed before the cube-root identities)
     grid = _grid(nx, nT, broadcast)
     for pts in ([grid] if batch else [[p] for p in grid]):
         xq, Tq = _query(ctx, xs, Ts, pts, ne, form)
@@ -692,6 +814,7 @@ def trained_ic(ctx, nT=1, ng=2, logY=False, broadcast=True):
         if not logY:
             ctx.prove("trained matrix-side composition reproduces the training data", same(ctx, ga, wa))
     ctx.prove("training grid has no other points", len(dT) == kept and len(dg) == kept)
+    check_stored(ctx, surr, therm)
 
 
 def trained_curv(ctx, nx=2, nT=1, logX=False, broadcast=True, fault=False):
@@ -718,6 +841,7 @@ def trained_curv(ctx, nx=2, nT=1, logX=False, broadcast=True, fault=False):
         for f in ("dc", "mc", "gba", "beta", "c_eq_beta") + (() if logX else ("c_eq_alpha",)):
             ctx.prove("trained curvature factor reproduces the training data: " + f, same_arr(ctx, getattr(got, f), getattr(want, f)))
         ctx.prove("trained impingement factor is the trained beta", same(ctx, surr.impingementFactor(xs[i], Ts[j]), want.beta))
+    check_stored(ctx, surr, therm)
 
 
 def trained_curv_phase(ctx, nx=2, nT=1, broadcast=True, both=False, form="kw"):
@@ -858,13 +982,21 @@ def rebuilt(ctx, ne=2, logX=False, suffix=False):
     if binary:
         gs = ctx.reals("g", 2, (100.0, 5000.0))
         ctx.assume(gs[0] > 0); ctx.assume(gs[1] > 0); ctx.assume(gs[0] != gs[1])
-        surr.trainInterfacialComposition(Ts[0], gs)
+        for k in range(2):
+            wa, _ = therm.getInterfacialComposition(Ts[0], gs[k], precPhase=_PHASES[1])
+            ctx.assume(ctx.any([sc(wa) > 0, sc(wa) == -1]), "backend contract: positive matrix composition or the sentinel -1")
+        surr.trainInterfacialComposition(Ts[0], gs, logY=logX)
     else:
         surr.trainCurvature(xarg, Ts[1], logX=logX)
+    check_stored(ctx, surr, therm, tag="after training: ")
+    before = snapshot_data(surr)
     surr2 = cls(therm, kernel=K, kernelKwargs=dict(kw))
     with json_layer(ctx) as path_of:
         surr.toJson(path_of("surr.json" if suffix else "surr"))
         surr2.fromJson(path_of("surr.json" if suffix else "surr"))
+    ctx.prove("saving leaves the stored training data unchanged", same_data(ctx, snapshot_data(surr), before))
+    ctx.prove("rebuilt surrogate stores the original's training data", same_data(ctx, snapshot_data(surr2), before))
+    check_stored(ctx, surr2, therm, tag="rebuilt: ")
     dicts = ["drivingForceModels", "diffusivityModels"] + (["interfacialCompositionModels"] if binary else ["curvatureModels"])
     for dn in dicts:
         a, b = getattr(surr, dn), getattr(surr2, dn)
@@ -920,6 +1052,9 @@ _A_TR = ["training points pairwise distinct, compositions/temperatures/Gibbs-Tho
          "log-scaled outputs (logY matrix composition, logX equilibrium matrix composition) are not compared: exp(log(x)) = x is "
          "outside the axioms"]
 
+_NAMES = ["snap_t0.25h", "a.b.c", "x.npz.bak", "v1.0", ".hidden", "name.", "t=1e-3s.npz"]
+_NAME_PAIRS = [("snap_t0.25h", "snap_t0.50h"), ("a.b.c", "a.b.d"), ("x.npz.bak", "x.npz.old"), ("run.npz", "run.npz.bak"),
+               ("run", "run.1"), ("plain", "plain.npz.npz"), ("v1.0", "v1.1")]
 _pt = []
 for _g in ("getDrivingForce", "getInterdiffusivity", "getTracerDiffusivity"):
     _pt += [{"getter": _g, "ne": 2, "npts": 1, "form": "default", "mixed": True},
@@ -963,9 +1098,14 @@ HARNESSES = [
             params={"quick": [{"nph": 1, "nel": 1, "N": 1, "bins": [2], "io": "file"},
                               {"nph": 2, "nel": 2, "N": 2, "bins": [2, 3], "io": "file"},
                               {"nph": 2, "nel": 1, "N": 3, "bins": [3, 2], "io": "dict", "psdrec": True},
-                              {"nph": 2, "nel": 2, "N": 2, "bins": [2, 2], "io": "file.npz"}],
+                              {"nph": 2, "nel": 2, "N": 2, "bins": [2, 2], "io": "file.npz"},
+                              {"nph": 1, "nel": 1, "N": 2, "bins": [2], "io": "file", "fname": "snap_t0.25h"},
+                              {"nph": 1, "nel": 1, "N": 1, "bins": [2], "two": ["snap_t0.25h", "snap_t0.50h"]},
+                              {"nph": 2, "nel": 1, "N": 1, "bins": [2, 3], "two": ["run.npz", "run.npz.bak"]}],
                     "thorough": [{"nph": p, "nel": e, "N": n, "bins": [2, 3, 4][:p], "io": io, "psdrec": r}
-                                 for p in (1, 2, 3) for e in (1, 2, 3) for n in (1, 4) for io, r in (("file", False), ("dict", True))]}),
+                                 for p in (1, 2, 3) for e in (1, 2, 3) for n in (1, 4) for io, r in (("file", False), ("dict", True))] +
+                                [{"nph": 1, "nel": 1, "N": 2, "bins": [2], "io": "file", "fname": f} for f in _NAMES] +
+                                [{"nph": 2, "nel": 1, "N": 2, "bins": [2, 3], "two": list(t)} for t in _NAME_PAIRS]}),
     Harness("C20.roundtrip_diff", roundtrip_diff, functions=_F_RT, assumptions=_A_RT, stubs=_S_FILE,
             bounds={"solutes": "nel", "nodes": "N", "recorded frames": "R"},
             params={"quick": [{"nel": 1, "N": 2, "R": 1, "record": True, "io": "file"},
@@ -975,11 +1115,19 @@ HARNESSES = [
                               {"nel": 1, "N": 2, "R": 2, "record": True, "io": "dict", "disable": True, "fresh_record": True},
                               {"nel": 2, "N": 2, "R": 3, "record": True, "io": "file", "disable": True, "post": True, "fresh_record": False},
                               {"nel": 1, "N": 3, "R": 2, "record": True, "io": "file.npz", "disable": True, "post": True, "fresh_record": True},
-                              {"nel": 1, "N": 2, "R": 2, "record": True, "io": "dict", "post": True}],
+                              {"nel": 1, "N": 2, "R": 2, "record": True, "io": "dict", "post": True},
+                              {"nel": 1, "N": 2, "R": 1, "record": True, "io": "file", "fname": "a.b.c"},
+                              {"nel": 1, "N": 2, "R": 1, "record": True, "io": "file", "fname": "x.npz.bak"},
+                              {"nel": 1, "N": 2, "R": 2, "record": True, "two": ["snap_t0.25h", "snap_t0.50h"]},
+                              {"nel": 2, "N": 2, "R": 1, "record": True, "two": ["a.b.c", "a.b.d"], "disable": True},
+                              {"nel": 1, "N": 2, "R": 1, "record": True, "two": ["x.npz.bak", "x.npz.old"]},
+                              {"nel": 1, "N": 2, "R": 1, "record": True, "two": ["plain", "plain.npz.npz"]}],
                     "thorough": [{"nel": e, "N": n, "R": r, "record": rec, "io": io} for e in (1, 2, 3) for n in (2, 5) for r in (1, 4)
                                  for rec, io in ((True, "file"), (True, "dict"), (False, "dict"))] +
                                 [{"nel": e, "N": 3, "R": r, "record": True, "io": io, "disable": True, "post": po, "fresh_record": fr}
-                                 for e in (1, 2) for r in (2, 4) for io in ("file", "dict") for po in (False, True) for fr in (True, False)]}),
+                                 for e in (1, 2) for r in (2, 4) for io in ("file", "dict") for po in (False, True) for fr in (True, False)] +
+                                [{"nel": 1, "N": 2, "R": 2, "record": True, "io": "file", "fname": f} for f in _NAMES] +
+                                [{"nel": 2, "N": 3, "R": 2, "record": True, "two": list(t)} for t in _NAME_PAIRS]}),
     Harness("C20.roundtrip_strength", roundtrip_strength, functions=_F_RT, assumptions=["the strength model was updated at least once (rss, ls, solidStrength are arrays)"],
             stubs=_S_FILE, bounds={"phases": "nph", "history length": "N"},
             params={"quick": [{"nph": 2, "N": 2, "compressed": True}, {"nph": 1, "N": 3, "compressed": False}],
@@ -1044,6 +1192,6 @@ HARNESSES = [
                                  for b in (False, True) for f in ("kw", "pos")]}),
     Harness("C20.rebuilt", rebuilt, functions=_F_JS + _F_TR, stubs=_S_THERM + _S_KERNEL + _S_JSON, assumptions=_A_TR,
             bounds={"components": "ne", "training grid": "2 compositions x 2 temperatures"},
-            params={"quick": [{"ne": 2, "logX": False, "suffix": False}, {"ne": 3, "logX": True, "suffix": True}],
+            params={"quick": [{"ne": 2, "logX": False, "suffix": False}, {"ne": 3, "logX": True, "suffix": True}, {"ne": 2, "logX": True, "suffix": True}],
                     "thorough": [{"ne": ne, "logX": lx, "suffix": s} for ne in (2, 3) for lx in (False, True) for s in (False, True)]}),
 ]
